@@ -79,9 +79,28 @@ def build(cell, inst):
   raise ValueError(f)
 
 
+def _noise_keys(rng, nbits):
+  """Healthy moduli of slightly shorter, odd bit lengths (same encoded byte length as the target) and of another size."""
+  from pv import art as _art
+  out = []
+  for j, bits in enumerate((nbits - 2, nbits - 7, 1024 if nbits != 1024 else 2048)):
+    if bits < 128:
+      continue
+    pb = bits // 2 + 1
+    for _ in range(200):
+      p_ = _art.rand_prime_top2(rng, pb)
+      q_ = _art.rand_prime(rng, bits - pb + 1)
+      if (p_ * q_).bit_length() == bits:
+        break
+    n_ = p_ * q_
+    out.append(checks.Art('noise%d' % j, 'rsa', _art.rsa_key(n_), 'noise', n=n_, e=65537, crit={}))
+  return out
+
+
 def run_cell(args):
-  cell, inst, prop = args
-  sid = '%s-%s-%s-i%d' % (prop, cell['family'], cell_id(cell), inst)
+  cell, inst, prop = args[:3]
+  context = args[3] if len(args) > 3 else 'alone'
+  sid = '%s-%s-%s-i%d%s' % (prop, cell['family'], cell_id(cell), inst, '' if context == 'alone' else '-' + context)
   try:
     shim.install()
     from paranoid_crypto.lib import paranoid  # noqa (import order)
@@ -98,12 +117,25 @@ def run_cell(args):
         par = {'max_steps': cell['max_steps']}
       else:
         objs.append(getattr(rsa_single_checks, nm)())
+    batch = [a]
+    if context == 'after-noise':
+      # the same check objects first see unrelated healthy keys of odd sizes, in an earlier call and in the same batch
+      import random as _r
+      nrng = _r.Random(sid)
+      noise = _noise_keys(nrng, a.meta['n'].bit_length())
+      if par is None:
+        reg = paranoid.GetRSAAllChecks()
+        objs = [reg[nm] for nm in names]          # the process-wide singletons
+      for o in objs:
+        o.Check([k.proto for k in noise[:1]])
+      batch = noise[1:] + [a]
     def fn():
       ret = False
       for o in objs:
-        ret = o.Check([a.proto]) or ret
+        ret = o.Check([k.proto for k in batch]) or ret
       return ret
-    rec = checks.record_call(sid, 'rsa', [a], fn, names, {a.aid: dict(a.meta['crit'])})
+    crit = {k.aid: dict(k.meta.get('crit', {})) for k in batch}
+    rec = checks.record_call(sid, 'rsa', batch, fn, names, crit)
     if par:
       rec['par'] = par
     rec['scenario'] = {'cell': cell, 'instance': inst, 'attrs': a.meta['attrs'], 'n_hex': format(a.meta['n'], 'x')}
@@ -117,8 +149,9 @@ def run_family_check(ctx, prop, families, instances):
   if 'unseeded' in families:
     cells += unseeded_cells(ctx.quick)
   jobs = [(c, i, prop) for c in cells for i in range(instances)]
+  jobs += [(c, 0, prop, 'after-noise') for c in cells if c['family'] not in ('lhw',)]
   if ctx.only_sid:
-    jobs = [j for j in jobs if '%s-%s-%s-i%d' % (prop, j[0]['family'], cell_id(j[0]), j[1]) == ctx.only_sid]
+    jobs = [j for j in jobs if ctx.only_sid.startswith('%s-%s-%s-i%d' % (prop, j[0]['family'], cell_id(j[0]), j[1]))]
   mpctx = mp.get_context('fork')
   with mpctx.Pool(processes=15) as pool:
     results = list(pool.imap_unordered(run_cell, jobs, chunksize=1))
@@ -137,7 +170,7 @@ def run_family_check(ctx, prop, families, instances):
   ctx.replayed = len(recs)
   for x in recs[:3]:
     ctx.sample({'sid': x['sid'], 'scenario': {k: v for k, v in x['scenario'].items() if k != 'n_hex'},
-                'entries': x['arts'][0]['after']['entries'], 'nf_is_pq': x['arts'][0]['after']['nf_is_pq']})
+                'entries': x['arts'][-1]['after']['entries'], 'nf_is_pq': x['arts'][-1]['after']['nf_is_pq']})
   c, fails, trs = tlc.validate_trace_parallel('ChecksTrace', 'ChecksTrace.cfg', recs, prop, jobs=8, timeout=3600)
   ctx.note_mc(trs[0], 'ChecksTrace with FactorCriteria (first of %d chunks)' % len(trs))
   ctx.validated = c
@@ -145,7 +178,8 @@ def run_family_check(ctx, prop, families, instances):
   def det(rec, f):
     sc = rec['scenario']
     d = {'family': sc['cell']['family'], 'cell': sc['cell'], 'instance': sc['instance'], 'attrs': sc['attrs'], 'raised': rec['raised'],
-         'entries': [(e['name'], e['result']) for e in rec['arts'][0]['after']['entries']] if rec['arts'] else None,
+         'entries': [(e['name'], e['result']) for e in rec['arts'][-1]['after']['entries']] if rec['arts'] else None,
+         'context': 'after-noise' if len(rec['arts']) > 1 else 'alone',
          'n_hex': sc['n_hex']}
     d.update({'cell_' + k: v for k, v in sc['cell'].items()})
     return d
